@@ -457,7 +457,7 @@ let apply_precheck r fn op a b =
 
 let registry_note toks =
   match toks with
-  | ("coll" | "minterm" | "const" | "var" | "apply" | "unary" | "satpre") :: n :: fn :: _ -> note_edge n fn
+  | ("coll" | "minterm" | "const" | "var" | "apply" | "unary" | "satpre" | "reattach") :: n :: fn :: _ -> note_edge n fn
   | "read" :: _ :: fn :: names -> List.iter (fun n -> note_edge n fn) names
   | "readnew" :: _ :: fn :: _ :: names -> List.iter (fun n -> note_edge n fn) names
   | "copyedge" :: b :: a :: _ ->
@@ -515,7 +515,13 @@ let rec run toks =
       end) (Hashtbl.copy fors)
   | "attached" :: a :: _ ->
     if not (Hashtbl.mem edge_ids a) then raise Unsupported;
-    emit ("attached " ^ (if edge_attached a then "1" else "0"))
+    emit (if edge_attached a then "attached 1" else "attached 0 node=0")
+  | "reattach" :: a :: fn :: _ ->
+    (* dd_edge::attach: the edge becomes the transparent edge of the forest *)
+    Hashtbl.remove edges a; Hashtbl.remove evtabs a;
+    let f = get_forest fn in
+    if f.lab <> MT then raise Unsupported;
+    set_edge a fn (const_dd (szf f) f.rule (nat_of_int (nlev f)) (z_of_int 0)); show a
   | "show" :: a :: _ when Hashtbl.mem edge_ids a && not (edge_attached a) ->
     emit (a ^ " detached attached=0")
   | "evalx" :: a :: _ when Hashtbl.mem edge_ids a && not (edge_attached a) ->
